@@ -48,6 +48,20 @@ BODIES = {
                                   '"errorMessage":"Invalid credentials."}',
     'error-object-leading-crlf': '\r\n\t{"error":"E","errorMessage":"m",'
                                  '"cause":"c"}\n',
+    # the replies the real services are documented to give
+    'error-object-invalid-token': '{"error":"ForbiddenOperationException",'
+                           '"errorMessage":"Invalid token."}',
+    'error-object-invalid-token-bare': '{"error":"ForbiddenOperationException",'
+                                '"errorMessage":"Invalid token"}',
+    'error-object-profile-assigned': '{"error":"IllegalArgumentException",'
+                              '"errorMessage":"Access token already has a '
+                              'profile assigned."}',
+    'error-object-too-many': '{"error":"TooManyRequestsException","errorMessage":'
+                      '"The client has sent too many requests within a '
+                      'certain amount of time"}',
+    'error-object-gone': '{"error":"ResourceException","errorMessage":'
+                  '"The server has not found anything matching the request '
+                  'URI","cause":"GoneException"}',
     'partial-error-object': '{"error":"OnlyError"}',
     'partial-error-object-2': '{"errorMessage":"only the message"}',
     'json-object-other': '{"foo":1}',
